@@ -154,3 +154,68 @@ func Merged(f func() bool) bool { return f() }
 // OrmOnTouch registers a hook run whenever the step reads or writes a new row of the table
 // (symbolic runs only; natively invariants are checked once on the whole pre-state).
 func OrmOnTouch(table string, f func()) {}
+
+// PulsarToGogo / GogoToPulsar copy a message field by field between the two generated
+// structs of the same proto message (natively through the wire format).
+func PulsarToGogo(dst, src interface{}) { native2().Convert(dst, src) }
+func GogoToPulsar(dst, src interface{}) { native2().Convert(dst, src) }
+
+// Converter is the optional part of the native support that converts messages.
+type Converter interface{ Convert(dst, src interface{}) }
+
+func native2() Converter {
+	c, ok := Native.(Converter)
+	if !ok {
+		panic("zzverif: native message conversion not installed")
+	}
+	return c
+}
+
+// ValidSdkDenom: the string is accepted by sdk.ValidateDenom.
+func ValidSdkDenom(s string) bool { return sdkDenomRe.MatchString(s) }
+
+// B58String returns the base58check encoding of payload with the given version byte.
+func B58String(payload []byte, version byte) string { return B58Encode(payload, version) }
+
+// B58Encode is installed by replay support of modules that use base58.
+var B58Encode = func(payload []byte, version byte) string { panic("zzverif: base58 encoder not installed") }
+
+// MergeCallee asks the symbolic engine to summarise the named pure function of the code
+// under test by exploring its paths locally and merging them (errors keep a symbolic
+// nil-ness). The function is still executed from /repo's SSA. No effect natively.
+func MergeCallee(fullName string) {}
+
+// ---- recording stubs (symbolic runs; natively provided by the module's replay support)
+
+func Recorder(name string) interface{}                        { return native3().Recorder(name) }
+func CallCount(name string) int                               { return native3().CallCount(name) }
+func CallIndex(name string, k int) int                        { return native3().CallIndex(name, k) }
+func CallArg(call, arg int, dst interface{})                  { native3().CallArg(call, arg, dst) }
+func SameObject(a, b interface{}) bool                        { return native3().SameObject(a, b) }
+func SerializedExactly(data []byte, m interface{}) bool       { return native3().SerializedExactly(data, m) }
+func SetUnexportedField(ptr interface{}, f string, v interface{}) { native3().SetUnexportedField(ptr, f, v) }
+func DeepSnapshot(v interface{}) interface{}                  { return native3().DeepSnapshot(v) }
+func DeepEqual(a, b interface{}) bool                         { return native3().DeepEqual(a, b) }
+
+type StubSupport interface {
+	Recorder(name string) interface{}
+	CallCount(name string) int
+	CallIndex(name string, k int) int
+	CallArg(call, arg int, dst interface{})
+	SameObject(a, b interface{}) bool
+	SerializedExactly(data []byte, m interface{}) bool
+	SetUnexportedField(ptr interface{}, f string, v interface{})
+	DeepSnapshot(v interface{}) interface{}
+	DeepEqual(a, b interface{}) bool
+}
+
+func native3() StubSupport {
+	s, ok := Native.(StubSupport)
+	if !ok {
+		panic("zzverif: native stub support not installed")
+	}
+	return s
+}
+
+// AssumeRange assumes lo <= v <= hi.
+func AssumeRange(v, lo, hi int64) { Assume(lo <= v && v <= hi) }
